@@ -141,6 +141,12 @@ def gen_fn(item, src_text, stripped, relfile, log, dropped_hints, env):
     name = item['name']
     lo, hi = 0, len(stripped)
     impl_header = None
+    if 'sig_text' in item:
+        # pre-extracted text (rule R9: wrapper tails taken from the macro expansion)
+        sig, body = item['sig_text'], item['body_text']
+        sig_line = body_line = item.get('src_line', 1)
+        qual = item.get('label', name)
+        return _finish_fn(item, sig, body, sig_line, body_line, qual, None, relfile, log, dropped_hints, env)
     if item.get('impl'):
         s, ob, cb = rustsrc.find_impl(stripped, item['impl'], item.get('impl_nth', 0))
         lo, hi = ob + 1, cb
@@ -158,6 +164,11 @@ def gen_fn(item, src_text, stripped, relfile, log, dropped_hints, env):
     body_line = rustsrc.line_of(stripped, f['body_open'])
     qual = item.get('label', name)
 
+    return _finish_fn(item, sig, body, sig_line, body_line, qual, impl_header, relfile, log, dropped_hints, env, stripped, lo)
+
+
+def _finish_fn(item, sig, body, sig_line, body_line, qual, impl_header, relfile, log, dropped_hints, env, stripped=None, lo=0):
+    name = item['name']
     rules = list(item.get('rules', []))
     if item.get('engine') and item.get('r3'):
         from . import rules as RL
@@ -417,7 +428,11 @@ def generate(unit_name, repo=None, force_stub=()):
             txt = item['text'] if 'text' in item else open(os.path.join(VERIF, 'contracts', item['file'])).read()
             out.append(Seg(txt + '\n', ('prelude', item.get('label', 'raw'))))
             continue
-        src, stripped = load(item['file'])
+        if 'sig_text' in item:
+            src, stripped = '', ''
+            item = dict(item, file=item.get('src_file', 'macro-expansion'))
+        else:
+            src, stripped = load(item['file'])
         if kind in ('struct', 'enum'):
             out += gen_typedef(item, stripped, item['file'], log)
         elif kind == 'fn':
